@@ -224,6 +224,8 @@ func (c *Ctx) runTop() {
 				continue
 			}
 			c.assume(st, t)
+			// an assumption that no caller is checked against: listed in the evidence
+			c.Defaults["assumed at entry of "+ct.Func+" (not checked at call sites): "+cl.Text] = true
 		}
 		c.cover(st, "precondition satisfiable", fn.Pos())
 	}
